@@ -191,8 +191,9 @@ where
         match ev {
             NodeEvent::Enter(RefNode::WhiteSpace(_)) => ws += 1,
             NodeEvent::Leave(RefNode::WhiteSpace(_)) => ws -= 1,
-            NodeEvent::Enter(RefNode::ResetallCompilerDirective(_)) if drop_resetall => ra += 1,
-            NodeEvent::Leave(RefNode::ResetallCompilerDirective(_)) if drop_resetall => ra -= 1,
+            // `resetall between descriptions is a Description of its own: drop the wrapper with it
+            NodeEvent::Enter(RefNode::Description(Description::ResetallCompilerDirective(_))) if drop_resetall => ra += 1,
+            NodeEvent::Leave(RefNode::Description(Description::ResetallCompilerDirective(_))) if drop_resetall => ra -= 1,
             NodeEvent::Enter(RefNode::Locate(l)) => {
                 if ws == 0 && ra == 0 {
                     let s = text.get(l.offset..l.offset + l.len).unwrap_or("<out-of-range>");
